@@ -15,5 +15,5 @@ def run(tier, seed):
     ff_cases(chk, rng, 40 if tier == 'quick' else 1600, ('real',))
     nor = 12 if (tier == 'quick' and not chk.broken) else (40 if tier == 'quick' else 640)
     run_oracle(chk, rng, nor, 'ff.c11_oracle', 'c11-oracle', ('real',),
-               probes=[os.path.join(ROOT, 'probes', f) for f in ('C11-terraces-linear.json', 'C11-terraces-circular.json')])
+               probes=[os.path.join(ROOT, 'probes', f) for f in ('C11-terraces-linear.json', 'C11-terraces-circular.json', 'C11-radials-three-media.json')])
     return chk.finish()
